@@ -624,3 +624,39 @@ def c08(run):
     run.add_samples(oks[:2])
     run.assumptions = [SYMBOLIC, 'the 16-bit checksum of usage 255 / legacy protection is treated as an integrity check (a wrong password passes it with probability 2^-16)']
     run.notes['trusted_base'] = TRUSTED
+
+
+# ---------------------------------------------------------------------------
+# C05  wire fidelity and truthful lengths
+
+@prop('C05', 'exploration')
+def c05(run):
+    cfg = 'SPECIFICATION Spec\nINVARIANTS Consistent GenCells\nCHECK_DEADLOCK FALSE\n'
+    g = run.mc('MCWireGrammar', cfg, name='gen', workers=1, timeout=1200)
+    # framing thresholds used for the headers (shared with C17)
+    run.mc('MCFraming', framing_cfg([9], [0, 191, 192, 8383, 8384], 1, [2, 11], 'ReaderComplete ReaderSound NeverMisSplit WriterLegal', encmax=run.q(20000, 70000)), name='mc_framing_lengths')
+    # the lock/unlock histories after which announced lengths are re-checked (shared with C08)
+    run.mc('KeyLock', keylock_cfg(4, 5), name='mc_keylock_v4')
+    cases = g.cases
+    if run.replay and run.replay.get('source_case'):
+        cases = [run.replay['source_case']]
+    for i, c in enumerate(cases):
+        c['ci'] = i
+    body, summary, oks = run.harness('c05', cases, timeout=3300)
+    run.distinct_nontrivial = summary['extra']['nontrivial']
+    run.traces_validated = summary['evaluations']
+    run.rule = ('WireGrammar.tla describes RFC 9580 packet bodies as token sequences (u8/be16/be32/bytes/str/mpi with encoding style/subpacket '
+                'length with form/real key material) and enumerates cells: PKESK v3/v6 x every algorithm id x MPI style; SKESK v4/v5/v6 x cipher, AEAD '
+                'and S2K type ids; signatures v4/v6 x type/pk/hash ids, every subpacket type 0..127 x critical x 1/2/5-octet length form x '
+                'hashed/unhashed, areas up to 100 000 octets; one-pass v3/v6; literal/compressed/SEIPD/SED with every id octet; public keys v4/v6 x '
+                'every algorithm id x MPI style; secret keys x every S2K usage octet x S2K types; user id / attribute (length forms) / marker / '
+                'trust / padding / MDC - each with predicted body length and canonicity. The harness concretises tokens with a table-driven encoder, '
+                'frames independently and checks: accepted iff demanded, parse(serialise(p)) = p, canonical input reproduced octet for octet, '
+                'announced = written lengths; plus API-built objects: certificates of 6 (thorough 9) algorithms as secret/public/armored, every '
+                'packet of them, after lock/unlock histories, and signatures after unhashed push/insert/remove with every length class. '
+                'non-trivial = cells that are non-canonical or not required to be accepted')
+    run.add_samples(cases[9000:9002])
+    run.add_samples(oks[:2])
+    run.assumptions = ['acceptance is only demanded for cells the grammar marks "yes" (known ids, canonical encoding); all other cells are checked conditionally on acceptance',
+                       'MPI and octet-string contents are random: algorithm-specific validity (curve points) comes from real key material tokens']
+    run.notes['trusted_base'] = TRUSTED
